@@ -942,6 +942,7 @@ def _advance_head_front(state: State, heads: List[FlowHead]) -> List[FlowHead]:
 
         flow_finished = False
         flow_aborted = False
+        flow_never_waited = flow_state.status == FlowStatus.STARTING
         try:
             new_heads = slide(state, flow_state, flow_config, head)
 
@@ -1017,6 +1018,10 @@ def _advance_head_front(state: State, heads: List[FlowHead]) -> List[FlowHead]:
             _finish_flow(state, flow_state, head.matching_scores)
             log.debug("Flow finished: %s with last element", head.flow_state_uid)
         elif flow_aborted:
+            if flow_never_waited and flow_state.activated > 0:
+                # Avoid an activated flow that failed before reaching its first waiting
+                # statement from being restarted, since this would end in an infinite loop
+                flow_state.new_instance_started = True
             _abort_flow(state, flow_state, head.matching_scores)
             log.debug("Flow aborted: %s by 'abort' statement", head.flow_state_uid)
 
